@@ -22,7 +22,8 @@ EXPLANATION = (
     " (R5) connect_graph links every column without sub-diagonal entry to its successor with a nonzero structural entry (set_entry discards new zeros), for columns 0..n-1, and find_graph returns the connected pattern."
     " (R6) clique-graph merge: the removed clique is deleted from the adjacency table and purged from every remaining adjacency set; (R7) every test that decodes the signed supernode array of pothen_sun is `< 0` (0 is a valid representative), the unassigned test is `== -1`; (R8) clique_tree_from_graph recomputes the edge weights as intersection sizes unconditionally before Kruskal, then parents, post-order, split."
     " (R9) the generic merge loop stops when one clique is left, whatever the strategy; connect_graph takes no copy of the index arrays it mutates."
-    " R9 also: merge_cliques calls post_process_merge on every return. (R10) set_entry keeps columns sorted (insertion at the partition point), which get_entry's binary search on the clique-graph edge matrix relies on (C16.R14 re-run).")
+    " R9 also: merge_cliques calls post_process_merge on every return. (R10) set_entry keeps columns sorted (insertion at the partition point), which get_entry's binary search on the clique-graph edge matrix relies on (C16.R14 re-run)."
+    ' (R11) merge_two_cliques: the survivor receives the union and only sets of the absorbed clique are emptied; (R12) sortperm is called with a permutation slice cut to the current number of edges (the workspace is sized once, the edge set shrinks).')
 ASSUMPTIONS = ['rustc MIR construction and trait resolution are correct',
                'sortperm_rev / permute / findnz mean what their names say (C16 territory)']
 
@@ -317,6 +318,75 @@ def merge_loop(rep, F, tag):
     R.guard(body)
 
 
+def merge_roles(rep, F, tag):
+    """A merge has a survivor and an absorbed clique.  The survivor receives the union of the vertex sets; what is emptied afterwards - vertex
+    set, separator, child list - belongs to the absorbed clique only.  Clearing a set of the survivor (its separator, say) removes the
+    vertices it shares with its own parent: entries of the sparsity pattern end up in no clique."""
+    R = rep.rule('C17.R11', 'merge_two_cliques: the survivor gets the union, and only sets of the absorbed clique are emptied')
+
+    def body():
+        n = 0
+        for f in F.find(name='merge_two_cliques'):
+            if 'NoMerge' in (f.impl_self or ''):
+                continue
+            leaves = [l for l in Walker(f, cut_loops=True, local_stores=True).leaves() if l[1][0] != 'diverge']
+            un = set()
+            for val, ret, ev, tr in leaves:
+                for e in ev:
+                    if e[0] == 'call' and e[1] == 'set_union_into_indexed' and str(e[2]).startswith('set_union_into_indexed(arg2.snode, '):
+                        un.add(tuple(split_args(str(e[2]))[1:]))
+            if not R.check(len(un) == 1, 'one-union|%s%s' % (f.impl_self, tag), 'the vertex sets are united %s times' % len(un), f.loc()):
+                continue
+            S, A = list(un)[0]
+            n += 1
+            R.check(S != A, 'distinct|%s%s' % (f.impl_self, tag), 'survivor and absorbed clique are the same expression %s' % S, f.loc())
+            cleared = set()
+            for val, ret, ev, tr in leaves:
+                for e in ev:
+                    if e[0] == 'call' and e[1] == 'clear':
+                        m = re.fullmatch(r'clear\(index_mut\(arg2\.(\w+), (.*)\)\)', str(e[2]))
+                        if not R.check(m is not None, 'clear-form|%s%s' % (f.impl_self, tag), 'unrecognised clear: %s' % str(e[2])[:120], f.loc()):
+                            continue
+                        cleared.add(m.group(1))
+                        R.check(m.group(2) == A, 'clears-absorbed|%s|%s%s' % (m.group(1), f.impl_self, tag),
+                                'merge_two_cliques empties %s[%s], which is not the absorbed clique %s: the surviving clique loses vertices it shares with its parent '
+                                '(entries of the pattern are then covered by no clique)' % (m.group(1), m.group(2)[:60], A[:60]), f.loc())
+                    if e[0] == 'call' and e[1] == 'set_union_into_indexed':
+                        a = split_args(str(e[2]))
+                        R.check(a[1:] == [S, A], 'union-direction|%s%s' % (f.impl_self, tag), '%s is united as (%s <- %s), the vertex sets as (%s <- %s)' % (a[0], a[1][:40], a[2][:40], S[:40], A[:40]), f.loc())
+            need = {'snode'} | ({'separators', 'snode_children'} if 'ParentChild' in (f.impl_self or '') else set())
+            R.check(need <= cleared, 'absorbed-emptied|%s%s' % (f.impl_self, tag), 'the absorbed clique keeps %s' % sorted(need - cleared), f.loc())
+        R.check(n >= 2, 'strategies' + tag, 'only %d merging strategies analysed' % n)
+
+    R.guard(body)
+
+
+def workspace_lengths(rep, F, tag):
+    """sortperm* require p and v of equal length (they assert it).  The clique-graph strategy keeps a permutation workspace sized for the
+    initial edge set, and the edge set shrinks with every merge: the workspace must be cut to the current number of edges at the call."""
+    R = rep.rule('C17.R12', 'sortperm is called with a permutation slice cut to the length of the values it sorts')
+
+    def body():
+        n = 0
+        for f in F.fns:
+            if 'src/solver/chordal/' not in f.file:
+                continue
+            for c in f.calls:
+                if c.callee.name not in ('sortperm', 'sortperm_rev', 'sortperm_by'):
+                    continue
+                n += 1
+                p_ = canon(f.sym_operand(c.args[0]))
+                v_ = canon(f.sym_operand(c.args[1]))
+                m = re.fullmatch(r'index_mut\((.*), Range::Range\(0_usize, len\((.*)\)\)\)', p_)
+                ok = (m is not None and m.group(2) == v_) or re.fullmatch(r'from_elem\(.*, len\(%s\)\)' % re.escape(v_), p_) is not None
+                R.check(ok, 'cut-to-length|%s%s' % (f.name, tag),
+                        '%s sorts %s through the permutation %s, whose length is not tied to it: the workspace was sized for the initial edge set, so after the first merge '
+                        'the length assertion of sortperm fails (the analysis panics)' % (f.name, v_[:60], p_[:80]), f.loc(c.sp))
+        R.check(n >= 1, 'instances' + tag, 'no sortperm call found under src/solver/chordal')
+
+    R.guard(body)
+
+
 def run(ctx, rep, tier):
     for cfg in (CONFIGS_THOROUGH if tier == 'thorough' else CONFIGS):
         F = ctx.facts(cfg)
@@ -328,6 +398,8 @@ def run(ctx, rep, tier):
         representative_encoding(rep, F, tag)
         tree_from_graph(rep, F, tag)
         merge_loop(rep, F, tag)
+        merge_roles(rep, F, tag)
+        workspace_lengths(rep, F, tag)
         # the clique-graph edge matrix is edited with set_entry and queried with get_entry (binary search): columns must stay sorted (C16.R14 re-run)
         from . import c16
         c16.entry_access(rep, F, tag, 'C17.R10')
